@@ -70,6 +70,8 @@ func c11Check(x *ingRun, tr *kit.Trace, res *kit.Result) {
 		n := len(rec.Replies)
 		fam := "host"
 		switch {
+		case rec.Op.Name >= ingNameSized:
+			fam = "big"
 		case rec.Op.Name >= ingNameWild:
 			fam = "slow"
 		case rec.Op.Name >= ingNameBig:
